@@ -58,6 +58,9 @@ type Case struct {
 	// Less: the schedule of less_test.go: requests for pages with page-local LESS served one
 	// after the other, by different goroutines, on ONE engine that has the LESS processor.
 	Less []string `json:"less,omitempty"`
+	// MD: the markdown kind of md_test.go: MD documents (reference links and images with the same
+	// labels and different targets) rendered concurrently on ONE markdown renderer.
+	MD int `json:"md,omitempty"`
 }
 
 // stuck is set once a concurrent phase did not finish: the blocked goroutines cannot be stopped
@@ -298,6 +301,17 @@ func check(c Case) error {
 		run.Inflight(prop, "case", c)
 		before, _ := raceLogSize()
 		if err := checkSwap(c); err != nil {
+			return err
+		}
+		if after, text := raceLogSize(); after > before {
+			return fmt.Errorf("the race detector reported a data race during this execution:\n%s", raceSummary(text, before))
+		}
+		return nil
+	}
+	if c.MD > 0 {
+		run.Inflight(prop, "case", c)
+		before, _ := raceLogSize()
+		if err := checkMD(c); err != nil {
 			return err
 		}
 		if after, text := raceLogSize(); after > before {
@@ -655,6 +669,17 @@ func TestProp(t *testing.T) {
 			continue
 		}
 		run.Each(rec, "ptrshare", pc, true, []string{"shared-value-is-root-data-and-nested-pointer", fmt.Sprintf("n=%d", pc.N)}, check)
+	}
+	// markdown documents with reference-style links rendered concurrently on one renderer
+	if run.First() {
+		for _, mc := range []Case{
+			{Prog: "markdown", MD: 2, N: 2, Reps: reps, Entries: []string{"bytes"}, Procs: 4},
+			{Prog: "markdown", MD: 8, N: 8, Reps: reps * 4, Entries: []string{"bytes"}, Procs: 16},
+			{Prog: "markdown", MD: 8, N: 8, Reps: reps * 4, Entries: []string{"load"}, Procs: 16},
+			{Prog: "markdown", MD: 6, N: 12, Reps: reps * 4, Entries: []string{"bytes"}, Procs: 1},
+		} {
+			run.Each(rec, "markdown", mc, true, []string{"concurrent-markdown-renders-on-one-renderer", "via=" + mc.Entries[0]}, check)
+		}
 	}
 	// requests for pages with page-local LESS on one engine with the LESS processor: every
 	// schedule of up to three requests (four in the thorough tier), both ways of registering
